@@ -103,6 +103,7 @@ def build_nodes(kinds, edges):
             nodes.append(model.Enum(name, [model.EnumMember('D%d_M' % i, ' + '.join(terms)), model.EnumMember('D%d_Z' % i, '0')]))
         elif k == 'typedef':
             tgt = [j for j in refs if kinds[j] in TYPEISH]
+            deps[i] = tgt[:1]                           # a typedef names exactly one type: only that reference exists
             nodes.append(model.Typedef(name, ('D%d' % tgt[0]) if tgt else 'u16'))
         elif k == 'struct':
             members = [model.StructMember('pre', 'u8')]
@@ -282,11 +283,14 @@ def includes_resolve(inc, ex1, ex2, d1, d2):
     frontier = [0]
     missing = False
     cyc = False
+    where = ['main', 'inc' if d1 else 'main', 'inc' if d2 else 'main']
     while frontier:
         i = frontier.pop()
         for j in range(3):
             if inc[i * 3 + j]:
-                if not exists[j]:
+                # documented lookup: the including file's own directory, then the -I directories ('inc')
+                visible = exists[j] and (where[j] == where[i] or where[j] == 'inc')
+                if not visible:
                     missing = True
                 elif j not in reach:
                     reach.add(j)
